@@ -29,7 +29,8 @@ class CFG:
             if b["cleanup"]:
                 self.succ[b["id"]] = []
                 continue
-            ss = [s for s in succs_of(b) if not body.blocks[s]["cleanup"]]
+            ss = [s for s in succs_of(b) if not body.blocks[s]["cleanup"]
+                  and body.blocks[s]["term"]["t"]["k"] != "unreachable"]
             self.succ[b["id"]] = ss
         for a, ss in self.succ.items():
             for s in ss:
@@ -149,3 +150,93 @@ class CFG:
         succ2[frm] = [s for s in succ2[frm] if s != to]
         r = self.reachable_from(0, succ=succ2)
         return self.reach0 - r
+
+
+def liveness(body):
+    """(live_in per block, address-taken locals).  Locals whose address is taken are treated as always live."""
+    addr = set()
+    use = {}
+    dfn = {}
+
+    def op_uses(o, acc):
+        if o["k"] in ("copy", "move"):
+            acc.add(o["place"]["local"])
+            for e in o["place"]["proj"]:
+                if e["k"] == "index":
+                    acc.add(e["local"])
+
+    for b in body.blocks:
+        u, d = set(), set()
+
+        def use_(l):
+            if l not in d:
+                u.add(l)
+
+        for s in b["stmts"]:
+            if s["k"] != "assign":
+                continue
+            rv = s["rv"]
+            acc = set()
+            k = rv["k"]
+            if k in ("use", "cast"):
+                op_uses(rv["op"], acc)
+            elif k in ("ref", "rawptr"):
+                addr.add(rv["place"]["local"])
+                acc.add(rv["place"]["local"])
+            elif k == "binop":
+                op_uses(rv["a"], acc)
+                op_uses(rv["b"], acc)
+            elif k == "unop":
+                op_uses(rv["a"], acc)
+            elif k == "discr":
+                acc.add(rv["place"]["local"])
+            elif k == "aggregate":
+                for o in rv["ops"]:
+                    op_uses(o, acc)
+            for l in acc:
+                use_(l)
+            p = s["place"]
+            if p["proj"]:
+                use_(p["local"])
+            else:
+                d.add(p["local"])
+        t = b["term"]["t"]
+        acc = set()
+        if t["k"] == "switch":
+            op_uses(t["discr"], acc)
+        elif t["k"] == "assert":
+            op_uses(t["cond"], acc)
+        elif t["k"] == "drop":
+            acc.add(t["place"]["local"])
+        elif t["k"] == "call":
+            for a in t["args"]:
+                op_uses(a, acc)
+            if t["callee"]["k"] != "direct":
+                op_uses(t["callee"]["op"], acc)
+        elif t["k"] == "return":
+            acc.add(0)
+        for l in acc:
+            use_(l)
+        if t["k"] == "call":
+            if t["dest"]["proj"]:
+                use_(t["dest"]["local"])
+            # the destination is defined on the edge to the target; treat as def at block end
+            else:
+                d.add(t["dest"]["local"])
+        use[b["id"]] = u
+        dfn[b["id"]] = d
+    live_in = {b["id"]: set() for b in body.blocks}
+    succ = {b["id"]: succs_of(b) for b in body.blocks}
+    changed = True
+    while changed:
+        changed = False
+        for b in reversed(body.blocks):
+            i = b["id"]
+            out = set()
+            for s in succ[i]:
+                out |= live_in[s]
+            new = use[i] | (out - dfn[i])
+            if new != live_in[i]:
+                live_in[i] = new
+                changed = True
+    return live_in, addr
